@@ -241,6 +241,49 @@ Proof.
     + exists (dy_max vals). split; [exact HinM|]. fold vmax. lia.
 Qed.
 
+(* the same for ANY given fraction length, negative ones included (the values are then divided by 2^-n_frac): below the cap lowered
+   by a negative n_frac (the search for the integer length stops at n_word_max - sign + n_frac) *)
+Theorem best_sizes_given_frac_any (signed : bool) wmax vals w f nfr :
+  let sign := if signed then 1 else 0 in
+  vals <> [] -> Forall (fun v => - de v <= 198) vals -> Forall (fun v => is_mult v nfr) vals ->
+  best_sizes signed None (Some nfr) wmax vals = Ok (w, f) -> w < wmax + Z.min nfr 0 ->
+  f = nfr /\ f <= w - sign /\
+  Forall (fun v => - 2^(w - sign) <= scaled_trunc v f < 2^(w - sign)) vals /\
+  (f < w - sign -> 0 < w - sign -> exists v, In v vals /\ ~ (- 2^(w - sign - 1) <= scaled_trunc v f < 2^(w - sign - 1))).
+Proof.
+  intros sign Hne Hdom Hmul H Hcap. unfold best_sizes in H. fold sign in H. cbn [bind] in H.
+  set (vmax := scaled_trunc (dy_max vals) nfr) in *. set (vmin := scaled_trunc (dy_min vals) nfr) in *.
+  destruct (int_loop 400 (wmax - sign + nfr) vmax vmin 0) as [ni0|] eqn:Eloop; [|discriminate].
+  injection H as Hw Hf.
+  destruct (int_loop_spec 400 (wmax - sign + nfr) vmax vmin 0 ni0 ltac:(lia) Eloop) as (Hni0 & Hfail & Hfit & _).
+  set (ni := Z.max (ni0 - nfr) 0) in *.
+  assert (Hnf: f = nfr) by lia. assert (Hww: w = nfr + ni + sign) by lia. clear Hw Hf. subst f.
+  assert (Hlt: ni0 < wmax - sign + nfr) by lia. specialize (Hfit Hlt).
+  split; [reflexivity|].
+  assert (HE: exists E, E <= - nfr /\ Forall (fun v => E <= de v) vals).
+  { exists (Z.min (- nfr) 0 - 198). split; [lia|]. eapply Forall_impl; [|exact Hdom]. cbv beta. intros v H1. lia. }
+  destruct HE as (E & HEn & HEv).
+  destruct (dy_max_spec E vals Hne HEv) as (HinM & HallM). destruct (dy_min_spec E vals Hne HEv) as (Hinm & Hallm).
+  set (P := 2^(- nfr - E)). assert (HP: 0 < P) by (apply pow2_pos; lia).
+  assert (Hcode: forall v, In v vals -> sc E v = scaled_trunc v nfr * P).
+  { intros v Hv. rewrite Forall_forall in Hmul, HEv. apply code_sc; [apply Hmul; exact Hv | apply HEv; exact Hv | exact HEn]. }
+  assert (Hbetween: forall v, In v vals -> vmin <= scaled_trunc v nfr <= vmax).
+  { intros v Hv. rewrite Forall_forall in HallM, Hallm. specialize (HallM v Hv). specialize (Hallm v Hv).
+    rewrite (Hcode v Hv), (Hcode _ HinM) in HallM. rewrite (Hcode v Hv), (Hcode _ Hinm) in Hallm. fold vmax in HallM. fold vmin in Hallm. nia. }
+  unfold fits_int in Hfit. apply andb_true_iff in Hfit. destruct Hfit as (Hfit & F4). apply andb_true_iff in Hfit. destruct Hfit as (Hfit & F3).
+  apply andb_true_iff in Hfit. destruct Hfit as (F1 & F2).
+  replace (w - sign) with (nfr + ni) by lia.
+  assert (Hpow: 2^ni0 <= 2^(nfr + ni)) by (apply pow2_le; lia).
+  split; [lia|]. split.
+  - apply Forall_forall. intros v Hv. specialize (Hbetween v Hv). lia.
+  - intros Hpos Hpos2. assert (Hni: ni = ni0 - nfr) by lia.
+    specialize (Hfail (ni0 - 1) ltac:(lia)). unfold fits_int in Hfail.
+    replace (nfr + ni - 1) with (ni0 - 1) by lia.
+    destruct ((- 2^(ni0 - 1) <=? vmax) && (vmax <? 2^(ni0 - 1))) eqn:EM.
+    + exists (dy_min vals). split; [exact Hinm|]. fold vmin. cbn [andb] in Hfail. lia.
+    + exists (dy_max vals). split; [exact HinM|]. fold vmax. lia.
+Qed.
+
 (* only n_word given (below the cap): the word is kept; the fraction length is the least exact one when the word has room for it
    and the values then fit, otherwise it is what is left beside the least integer length that holds every exact value *)
 Theorem best_sizes_given_word (signed : bool) wmax vals w0 w f :
